@@ -552,7 +552,7 @@ class FileSession(Session):
         try:
             with open(path, 'rb') as f:
                 return pickle.load(f)
-        except (IOError, EOFError):
+        except (IOError, EOFError, pickle.UnpicklingError):
             e = sys.exc_info()[1]
             if self.debug:
                 cherrypy.log('Error loading the session pickle: %s' %
